@@ -4,6 +4,10 @@ From C02 Require Import Model ProofsNodes ProofsBorders ProofsFold.
 Import ListNotations.
 Open Scope N_scope.
 
+Section WithMatcher.
+Context {tm : Matcher}.
+
+
 (* ---------------------------------------------------------------- tokens *)
 Lemma bytes_eqb_eq : forall a b, bytes_eqb a b = true <-> a = b.
 Proof.
@@ -139,7 +143,7 @@ Section Tree.
               (forall x, nsem t x = true <-> sel (QLeaf p) x).
   Proof.
     unfold leaf_tree.
-    set (vs := map (fun t => NStatic (posting t lo hi 1 tab)) (filter (pat_match p) (vocab tab))).
+    set (vs := map (fun t => NStatic (posting t lo hi 1 tab)) (filter (tok_match p) (vocab tab))).
     destruct (build_or_tree_sound rev vs) as [t [E [W S]]].
     { apply Forall_forall. intros v Hv. unfold vs in Hv. apply in_map_iff in Hv.
       destruct Hv as [tk [<- _]]. constructor. apply posting_sorted. }
@@ -205,3 +209,5 @@ Section Tree.
               (forall x, nsem t x = true <-> sel q x).
   Proof. intros q. unfold build_tree. apply build_tree_with_sound. apply leaf_tree_sound. Qed.
 End Tree.
+
+End WithMatcher.
